@@ -406,7 +406,7 @@ plus the same handshake losses with one bit of the file data flipped on a link w
     // also in the very millisecond of completion, of a Finished retransmission or of the ACK(Finished)
     let seed = ctx.seed;
     let reqsets2 = reqsets.clone();
-    let n = ctx.tier.pick(6_000u64, 200_000);
+    let n = ctx.tier.pick(6_000u64, 1_000_000);
     ctx.section = "puppet-late-pdus-timed".into();
     ctx.drive_indexed(&part, n, false, move |i| {
         let mut rng = Prng::new(mix(seed ^ 0xC04_71, i));
